@@ -85,6 +85,28 @@ CLAIMED["C18"] = ("exploration",
     "Trusted: strace, marker windows. Closures are opaque to the walk (covered by apply-later variants through the effect monitors). Known escape routes are pinned by route so a new route is reported.",
     "DESIGN.md §7 C18")
 
+CLAIMED["C04"] = ("exploration",
+    "runtime reference-model monitor: every join operator, nest, unnest and rank on live relations compared with the set-comprehension model on their denotations; results re-examined after later joins",
+    "Relation pairs over the attribute alphabet {a,b,c,@,@item,@char,@value} with every left-only/common/right-only partition, all column permutations of relation literals, rows from a 3-value domain, operands realised as relation literals, computed tuple sets, join-chains (unsorted internal column order) and arrays/strings/dicts/bytes used as binary relations: the eight join operators are judged against {t+u | t,u agree on common attributes} and its documented projections (members, count, Has, =), nest/nest~/nest-single against group-by with no row lost or invented, unnest against nest's inverse, rank against the count of strictly smaller keys and against orderby; earlier results are re-checked after later joins on the same operand (stability). Exhaustive over headings x permutations x 8 operators for 2-3 rows; seeded beyond.",
+    "Trusted: the 20-line join/nest/rank model transcribed from the docs. The `unnest` syntax does not compile (recorded under C10); unnest is driven through rel.NewUnnestExpr. Known findings need a model hazard in inputs or expected output plus a delta or site.",
+    "DESIGN.md §7 C04")
+CLAIMED["C06"] = ("exploration",
+    "runtime axiom monitor: trichotomy, transitivity over all triples, derived operators and every sort-based construct checked against the implementation's own < on live values",
+    "~690 live values (quick) across every kind and representation, each through several construction paths: all ordered pairs are evaluated under < = > <= >= (exactly one of a<b, a=b, b<a; derived operators consistent), all triples are judged for transitivity in the driver (5e7 quick, 5e9 thorough), b<a is evaluated twice (in two processes) and must agree, and orderby / order / keyed orderby / max / min / rank / printed member order / tuple attribute print order must follow < and agree across two runs and across differently built equal sets. The oracle has no opinion on WHICH order is right.",
+    "Trusted: nothing beyond the evaluator's own answers being compared with each other (axioms only). Kind-pair hazards for known findings are computed from denotations, never Go types.",
+    "DESIGN.md §7 C06")
+
+CLAIMED["C09"] = ("exploration",
+    "runtime reference-model monitor: let / call / cond pattern forms on live values compared with a structural matcher derived from the statement, plus a model-free rebuild round trip",
+    "Patterns enumerated from a small grammar (literals, names, _, (expr), array/tuple/dict/set patterns, ...rest in every position, fallbacks, nesting<=3; ~1500 core + seeded) against matching, near-miss (one element changed/extra/missing, offset and holey arrays, wrong kind, string vs array) values realised through several construction paths: exact bindings on a match, rejection (error for let/call, next arm for cond) on a near miss, first matching cond arm, and substituting the implementation's own bindings back into the pattern read as an expression must rebuild the value. Shapes the implementation explicitly refuses as non-deterministic, and shapes the statement leaves open, are counted but not judged.",
+    "Trusted: the reference matcher (match / no-match / open). Pattern holes `[a,,b]` are outside the statement's pattern grammar (their nil-dereference is a C10 matter).",
+    "DESIGN.md §7 C09")
+CLAIMED["C10"] = ("exploration",
+    "process-boundary crash and logical-hang monitor over an operator x operand-kind matrix, a safe-stdlib x argument-kind matrix, import trees and grammar-directed source-text fuzz",
+    "Every program runs under recover in a worker child (a child death is attributed to its case; hangs are decided by the blocked-forever / spinning criteria on CPU time and stack samples, never wall clock): 360 operator templates x 54 operand kinds (incl. functions, @neg, holey/offset sequences, multi-dicts), 50 safe stdlib functions x argument kinds with function-valued results applied further, a 2.8k-program corpus harvested from examples/ and test strings with 17 mutation operators, and generated programs. Signature = (panic|fatal|hang, innermost arrai frame + message class); the ~60 sites present on the unchanged tree are listed one by one (matrix entries pinned by (site, entry)); a new site, a nil value with nil error, or a new way into a pinned matrix site is reported.",
+    "Trusted: recover + child-death attribution; site normalisation (closure suffixes and line numbers stripped). A new way to reach an already listed site from the seeded fuzz slice is not reported. Liveness is bounded progress on bounded inputs.",
+    "DESIGN.md §7 C10")
+
 NOT_YET = "check not built yet in this session (planned, see DESIGN.md §7/§12); will be claimed once its monitor is silent on the unchanged tree and catches seeded breaks"
 
 def main():
